@@ -823,12 +823,123 @@ func DoMarshal(info gocql.TypeInfo, v interface{}) (out []byte, cls int, msg str
 }
 
 // NewTarget: the value to pass to gocql.Unmarshal for target type t, and a function reading the result.
-func NewTarget(t *GTy) (interface{}, func() *Val) {
+// Prefill stores an arbitrary NON-zero value of type t into rv: the destination of a decode that already
+// holds a different value from an earlier decode (a Scan loop reusing its variables): non-nil maps with
+// other keys, slices longer than most decoded values, set pointers, structs with every field set.
+func Prefill(rv reflect.Value, t *GTy, ty *Ty) {
+	sub := func(f func(*Ty) *Ty) *Ty {
+		if ty == nil {
+			return nil
+		}
+		return f(ty)
+	}
+	switch t.K {
+	case "int":
+		if t.IK.Signed() {
+			rv.SetInt(77)
+		} else {
+			rv.SetUint(77)
+		}
+	case "str":
+		rv.SetString("old-value")
+	case "bytes", "ip":
+		rv.SetBytes([]byte{9, 8, 7, 6, 5, 4, 3, 2, 1, 0, 9, 8, 7, 6, 5, 4, 3, 2})
+	case "bool":
+		rv.SetBool(true)
+	case "f32", "f64":
+		rv.SetFloat(1.5)
+	case "big":
+		rv.Set(reflect.ValueOf(*big.NewInt(-123456789)))
+	case "dec":
+		rv.Set(reflect.ValueOf(*inf.NewDec(12345, 2)))
+	case "time":
+		rv.Set(reflect.ValueOf(time.Unix(1234567890, 123000000).UTC()))
+	case "dur":
+		rv.SetInt(123456789)
+	case "cqldur":
+		rv.Set(reflect.ValueOf(gocql.Duration{Months: 1, Days: 2, Nanoseconds: 3}))
+	case "uuid", "arr16":
+		for i := 0; i < 16; i++ {
+			rv.Index(i).SetUint(uint64(0xf0 + i))
+		}
+	case "slice":
+		n := 5
+		sl := reflect.MakeSlice(rv.Type(), n, n)
+		for i := 0; i < n; i++ {
+			Prefill(sl.Index(i), t.E, sub(func(y *Ty) *Ty { return y.E }))
+		}
+		rv.Set(sl)
+	case "array":
+		for i := 0; i < rv.Len(); i++ {
+			Prefill(rv.Index(i), t.E, sub(func(y *Ty) *Ty { return y.E }))
+		}
+	case "map":
+		m := reflect.MakeMap(rv.Type())
+		k, v := reflect.New(rv.Type().Key()).Elem(), reflect.New(rv.Type().Elem()).Elem()
+		Prefill(k, t.Key, sub(func(y *Ty) *Ty { return y.Key }))
+		Prefill(v, t.E, sub(func(y *Ty) *Ty { return y.E }))
+		m.SetMapIndex(k, v)
+		rv.Set(m)
+	case "strmap":
+		rv.Set(reflect.ValueOf(map[string]interface{}{"zz_old_key": "old-value", "a": int64(77)}))
+	case "struct":
+		for j := range t.Ts {
+			var fty *Ty
+			if ty != nil && ty.K == "udt" {
+				// a struct field that no UDT field is decoded into keeps its value by design: leave it zero
+				later := false
+				for k := j + 1; k < len(t.Ts); k++ {
+					if t.Tags[j] != "" && t.Tags[k] == t.Tags[j] {
+						later = true
+					}
+				}
+				tagged := map[string]bool{}
+				for _, tg := range t.Tags {
+					if tg != "" {
+						tagged[tg] = true
+					}
+				}
+				found := false
+				for i, name := range ty.Names {
+					if !later && (t.Tags[j] == name || !tagged[name] && t.Names[j] == name) {
+						found, fty = true, ty.Es[i]
+					}
+				}
+				if !found {
+					continue
+				}
+			} else if ty != nil && ty.K == "tuple" && j < len(ty.Es) {
+				fty = ty.Es[j]
+			}
+			Prefill(rv.Field(j), t.Ts[j], fty)
+		}
+	case "ptr":
+		p := reflect.New(rv.Type().Elem())
+		Prefill(p.Elem(), t.E, ty)
+		rv.Set(p)
+	case "iface":
+		rv.Set(reflect.ValueOf("old-value"))
+	}
+}
+
+func NewTarget(t *GTy) (interface{}, func() *Val) { return newTarget(t, false, nil) }
+
+// NewTargetPrefilled: as NewTarget, but the destination already holds a value (Prefill)
+func NewTargetPrefilled(t *GTy, ty *Ty) (interface{}, func() *Val) { return newTarget(t, true, ty) }
+
+func newTarget(t *GTy, prefill bool, ty *Ty) (interface{}, func() *Val) {
 	if t.K == "ifaces" {
 		s := make([]interface{}, len(t.Ts))
 		ps := make([]reflect.Value, len(t.Ts))
 		for i, e := range t.Ts {
 			ps[i] = reflect.New(e.RType())
+			if prefill {
+				var ety *Ty
+				if ty != nil && ty.K == "tuple" && i < len(ty.Es) {
+					ety = ty.Es[i]
+				}
+				Prefill(ps[i].Elem(), e, ety)
+			}
 			s[i] = ps[i].Interface()
 		}
 		return s, func() *Val {
@@ -840,6 +951,9 @@ func NewTarget(t *GTy) (interface{}, func() *Val) {
 		}
 	}
 	p := reflect.New(t.RType())
+	if prefill {
+		Prefill(p.Elem(), t, ty)
+	}
 	return p.Interface(), func() *Val { return FromGo(p.Elem(), t) }
 }
 
@@ -848,6 +962,15 @@ func NewTarget(t *GTy) (interface{}, func() *Val) {
 // reuses for the next frame) shows up as a changed value.  reread reads the target again later (retained-
 // output recheck at the end of the run).
 func DoUnmarshal(info gocql.TypeInfo, data []byte, t *GTy) (res *Val, cls int, msg string, reread func() *Val) {
+	return doUnmarshal(info, data, t, false, nil)
+}
+
+// DoUnmarshalInto: the same into a destination that already holds a different value of the same type
+func DoUnmarshalInto(info gocql.TypeInfo, data []byte, t *GTy, ty *Ty) (res *Val, cls int, msg string, reread func() *Val) {
+	return doUnmarshal(info, data, t, true, ty)
+}
+
+func doUnmarshal(info gocql.TypeInfo, data []byte, t *GTy, prefill bool, ty *Ty) (res *Val, cls int, msg string, reread func() *Val) {
 	defer func() {
 		if r := recover(); r != nil {
 			res, cls, msg, reread = nil, ClsPanic, fmt.Sprint(r), nil
@@ -859,7 +982,7 @@ func DoUnmarshal(info gocql.TypeInfo, data []byte, t *GTy) (res *Val, cls int, m
 		buf = make([]byte, len(data), len(data)+8)
 		copy(buf, data)
 	}
-	tgt, read := NewTarget(t)
+	tgt, read := newTarget(t, prefill, ty)
 	err := gocql.Unmarshal(info, buf, tgt)
 	full := buf[:cap(buf)]
 	for i := range full {
